@@ -63,6 +63,14 @@ fn run_case(i: usize, case: &Value) -> Value {
         } else {
             Box::new(log4rs::encode::json::JsonEncoder::new())
         };
+        // in two of three cases an encoder of the other kind has rendered the thread's name, ids and the context map on
+        // this thread before (a console appender with a pattern in front of a JSON file appender): a JSON line
+        // describes the record and the thread, not what ran on the thread earlier (JsonLine.tla)
+        if v % 3 != 0 {
+            let p = log4rs::encode::pattern::PatternEncoder::new("{T}|{thread}|{I}|{i}|{P}|{X(k)(none)}|{M}|{f}|{L}|{m}{n}");
+            let mut sink = Cap::new(vec![]);
+            let _ = catch(|| p.encode(&mut sink, &log::Record::builder().level(lvl).target("earlier").args(format_args!("by pattern")).build()));
+        }
         // an earlier record of this thread whose sink failed part-way must leave nothing behind
         let mut broken = Cap::new(vec![]);
         broken.fail_after = Some((v % 6) * 7);
